@@ -14,7 +14,7 @@ for n in $names; do echo $n; done | xargs -P ${PAR:-10} -I{} sh -c "$(cat <<'INN
 kind="$0"; name="$1"; V=/verif
 . $V/env.sh
 wt=/tmp/rg/wt-$name; sv=/tmp/rg/v-$name
-rm -rf "$wt" "$sv"
+rm -rf "$wt" "$sv" /tmp/rg/$name.C*.txt
 git -C /repo worktree add --detach "$wt" HEAD >/dev/null 2>&1 || { echo "$name: worktree failed"; exit 0; }
 if ! git -C "$wt" apply "$V/$kind/$name/patch.diff" 2>/dev/null; then
   echo "$name: patch does not apply"; git -C /repo worktree remove --force "$wt"; exit 0
